@@ -1,9 +1,8 @@
 //! C16: matching reads only the fields the rule names.
 
 use std::borrow::Cow;
-use std::cell::RefCell;
 use std::collections::BTreeSet;
-use std::rc::Rc;
+use std::sync::{Arc, Mutex};
 
 use rayon::prelude::*;
 use serde_json::json;
@@ -16,7 +15,7 @@ use crate::mdoc::{s, MObj, MVal};
 use crate::refint;
 use crate::report::{Report, Stats, Tier, Violation};
 
-type Log = Rc<RefCell<Vec<(usize, String)>>>; // (depth, key asked)
+type Log = Arc<Mutex<Vec<(usize, String)>>>; // (depth, key asked)
 
 pub enum RecVal {
     Null,
@@ -49,7 +48,7 @@ impl AsValue for RecVal {
 }
 impl Object for RecObj {
     fn get(&self, key: &str) -> Option<Value<'_>> {
-        self.log.borrow_mut().push((self.depth, key.to_string()));
+        self.log.lock().unwrap().push((self.depth, key.to_string()));
         self.entries.iter().find(|(k, _)| k == key).map(|(_, v)| v.as_value())
     }
     fn keys(&self) -> Vec<Cow<'_, str>> {
@@ -83,11 +82,11 @@ pub fn rec_obj(o: &MObj, depth: usize, log: &Log) -> RecObj {
 /// user's document, then resolves them with the crate's own path resolver.
 pub struct RecDoc<'a> {
     inner: &'a MObj,
-    asked: RefCell<Vec<String>>,
+    asked: Mutex<Vec<String>>,
 }
 impl Document for RecDoc<'_> {
     fn find(&self, key: &str) -> Option<Value<'_>> {
-        self.asked.borrow_mut().push(key.to_string());
+        self.asked.lock().unwrap().push(key.to_string());
         Object::find(self.inner, key)
     }
 }
@@ -247,13 +246,13 @@ fn check_spec(spec: &RuleSpec, level: u8, doc_cap: usize) -> Stats {
     for (sw, det) in variants {
         st.states += 1;
         for d in &docs {
-            let log: Log = Rc::new(RefCell::new(vec![]));
+            let log: Log = Arc::new(Mutex::new(vec![]));
             let rd = rec_obj(d, 0, &log);
             let v = eng::solve3(&det.expr, &det.ids, &rd).unwrap_or(2);
             st.transitions += 1;
             st.evaluations += 1;
             st.traces += 1;
-            let asked = log.borrow();
+            let asked = log.lock().unwrap();
             st.count("find_calls_recorded", asked.len() as u64);
             if !asked.is_empty() {
                 asked_any = true;
@@ -286,7 +285,7 @@ fn check_spec(spec: &RuleSpec, level: u8, doc_cap: usize) -> Stats {
             }
             drop(asked);
             // the key strings as presented to a user-written Document
-            let rdoc = RecDoc { inner: d, asked: RefCell::new(vec![]) };
+            let rdoc = RecDoc { inner: d, asked: Mutex::new(vec![]) };
             let vd = eng::solve3(&det.expr, &det.ids, &rdoc).unwrap_or(2);
             st.transitions += 1;
             st.evaluations += 1;
@@ -297,7 +296,7 @@ fn check_spec(spec: &RuleSpec, level: u8, doc_cap: usize) -> Stats {
                     replay: json!({"kind":"optimise","rule_yaml":yaml,"sw_bits":sw,"hash_order_choices":[],"document":crate::report::mobj_to_json(d)}),
                 });
             }
-            for key in rdoc.asked.borrow().iter() {
+            for key in rdoc.asked.lock().unwrap().iter() {
                 st.count("document_find_calls_recorded", 1);
                 if !written.contains(key) {
                     st.push_violation(Violation {
@@ -371,5 +370,11 @@ pub fn run(tier: Tier) -> i32 {
     rep.stats.sample(json!({"rule":"A: [{f: 'a*', g: x}, {f: '*b'}] (becomes a matrix)","recorded":["f","g"],"never":["\\u0000","\\u0001"]}));
     rep.rule = "every loadable rule of the shared universe x every switch set (distinct optimised trees, all hash orders) x the document product, evaluated on a recording document (every get() on the document and on every nested object is logged). Oracle: (1) each key asked at the top level is the first segment of a key written at the top level of an identifier or a cast field of the condition; each key asked on a nested object is a segment written somewhere in the rule; and every key string presented to a recording Document::find is, verbatim, a key written at the top level of an identifier or a field written in the condition; no key containing a character below U+0020 (the matrix's synthetic column keys) or the empty key is ever asked; (2) for every document, adding an unaddressed field (zz, ff, the synthetic names U+0000 / U+0001, the empty name; at top level and inside nested objects) leaves the verdict unchanged. non-trivial = the rule asked for at least one key".into();
     rep.assumptions = vec!["key attribution is by segment name, not by exact nesting path".into()];
-    rep.finish()
+    // the same exploration on the crate built with its `sync` feature (own copies of find / adapters)
+    let vrc = crate::report::run_variant(&mut rep, "sync", "/verif/harness/target-sy/release/tv");
+    if vrc >= 2 {
+        return 2;
+    }
+    let rc = rep.finish();
+    rc.max(vrc)
 }
